@@ -72,6 +72,15 @@ def main():
                         fails += 1
                     text_ = text_.replace(o2, n2)
                 open(path, "w").write(text_)
+                others = []
+                for f3, o3, n3 in m.get("also", ()):    # edits in other files
+                    p3 = os.path.join(scratch, f3)
+                    t3 = open(p3).read()
+                    if t3.count(o3) != 1:
+                        print("SELFTEST-BROKEN %s %s: pattern occurs %d times in %s" % (m["property"], m["name"], t3.count(o3), f3))
+                        fails += 1
+                    others.append((p3, t3))
+                    open(p3, "w").write(t3.replace(o3, n3))
                 try:
                     tu = m.get("tu", m["file"])
                     ok, err = syntax_ok(scratch, tu) if tu.endswith(".cpp") else (True, "")
@@ -93,6 +102,8 @@ def main():
                             fails += 1
                             print("    " + "\n    ".join(text.strip().splitlines()[-6:]))
                 finally:
+                    for p3, t3 in others:
+                        open(p3, "w").write(t3)
                     open(path, "w").write(orig)
     finally:
         if "--keep" not in sys.argv:
